@@ -239,7 +239,8 @@ func genAddr(c *core.Ctx) {
 	servers := []string{"10.0.0.1:9618", "[::1]:9618", "", "h", "a<b>c", "h:1#42"}
 	queries := []string{"", "?", "?sock=startd_1_2", "?sock=", "?sock", "?Sock=x", "?sock=a&sock=b", "?sock=&sock=b", "?addrs=1.2.3.4-9618&alias=x&sock=id.1-2_3",
 		"?sock=a?b", "?sock=?x", "?sock=a&b?c", "?a=1?sock=b", "?xsock=1&sock=2", "?sock=%41", "?noUDP&sock=x&", "?&&sock=y", "?sock=a\x00b", "?sock=\xc3\xa9", "?sock=a b",
-		"?sock=../../etc", "??sock=z", "?sock=<x>", "?a=<&sock=>", "?sock=s&CCBID=1.2.3.4:5%236"}
+		"?sock=../../etc", "??sock=z", "?sock=<x>", "?a=<&sock=>", "?sock=s&CCBID=1.2.3.4:5%236",
+		"?sock=x%4", "?sock=%", "?sock=x%", "?sock=%zz", "?sock=%4&a=1", "?sock=a%2", "?sock=%%41", "?sock=%41%"}
 	for wi, w := range wraps {
 		for si, sv := range servers {
 			for qi, q := range queries {
